@@ -65,6 +65,7 @@ Proof. unfold byte_ok, word32. intros. lia. Qed.
 Section Pair.
 Variable k : pkind.
 Variable fx : bool.
+Variable fr : bool.
 
 Definition rdl (s : pair) : list pmsg := match pr_rd s with Some h => [h] | None => [] end.
 (* received and not yet delivered, in arrival order; accepted and not yet handed to the transport *)
@@ -296,7 +297,7 @@ Proof.
 Qed.
 
 Lemma law_PSend s c a nb m s' outs :
-  PInv s -> op_ok s (PSend c a nb m) -> pair_step k fx s (PSend c a nb m) = (s', outs) -> StepLaw s (PSend c a nb m) s' outs.
+  PInv s -> op_ok s (PSend c a nb m) -> pair_step k fx fr s (PSend c a nb m) = (s', outs) -> StepLaw s (PSend c a nb m) s' outs.
 Proof.
   intros HI Hok H. cbn [pair_step] in H.
   destruct (norm_send k m) as [m'|] eqn:EN.
@@ -319,7 +320,7 @@ Proof.
 Qed.
 
 Lemma law_PRecv s c a nb s' outs :
-  PInv s -> pair_step k fx s (PRecv c a nb) = (s', outs) -> StepLaw s (PRecv c a nb) s' outs.
+  PInv s -> pair_step k fx fr s (PRecv c a nb) = (s', outs) -> StepLaw s (PRecv c a nb) s' outs.
 Proof.
   intros HI H. cbn [pair_step] in H. pose proof HI as (I1 & I2 & I3 & I4 & I5 & I6 & I7).
   open_state s. destruct rmq as [|m rest].
@@ -343,7 +344,7 @@ Proof.
 Qed.
 
 Lemma law_PCancel s a rv s' outs :
-  PInv s -> rv <> 0%N -> pair_step k fx s (PCancel a rv) = (s', outs) -> StepLaw s (PCancel a rv) s' outs.
+  PInv s -> rv <> 0%N -> pair_step k fx fr s (PCancel a rv) = (s', outs) -> StepLaw s (PCancel a rv) s' outs.
 Proof.
   intros HI Hrv H. cbn [pair_step] in H. pose proof HI as (I1 & I2 & I3 & I4 & I5 & I6 & I7).
   open_state s. destruct (has_aio a waq) eqn:EA; [|destruct (has_id a raq) eqn:ER]; inversion H; subst; clear H; simp_r;
@@ -358,7 +359,7 @@ Proof.
 Qed.
 
 Lemma law_PPipeClose s p s' outs :
-  PInv s -> pair_step k fx s (PPipeClose p) = (s', outs) -> StepLaw s (PPipeClose p) s' outs.
+  PInv s -> pair_step k fx fr s (PPipeClose p) = (s', outs) -> StepLaw s (PPipeClose p) s' outs.
 Proof.
   intros HI H. cbn [pair_step] in H. pose proof HI as (I1 & I2 & I3 & I4 & I5 & I6 & I7).
   open_state s. destruct p0 as [q|].
@@ -370,7 +371,7 @@ Proof.
 Qed.
 
 Lemma law_PSockClose s s' outs :
-  PInv s -> pair_step k fx s PSockClose = (s', outs) -> StepLaw s PSockClose s' outs.
+  PInv s -> pair_step k fx fr s PSockClose = (s', outs) -> StepLaw s PSockClose s' outs.
 Proof.
   intros HI H. cbn [pair_step] in H. pose proof HI as (I1 & I2 & I3 & I4 & I5 & I6 & I7).
   open_state s. inversion H; subst; clear H; simp_r.
@@ -390,7 +391,7 @@ Proof.
 Qed.
 
 Lemma law_PRecvDone s p rv m s' outs :
-  PInv s -> op_ok s (PRecvDone p rv m) -> pair_step k fx s (PRecvDone p rv m) = (s', outs) -> StepLaw s (PRecvDone p rv m) s' outs.
+  PInv s -> op_ok s (PRecvDone p rv m) -> pair_step k fx fr s (PRecvDone p rv m) = (s', outs) -> StepLaw s (PRecvDone p rv m) s' outs.
 Proof.
   intros HI Hok H. cbn [pair_step] in H. pose proof HI as (I1 & I2 & I3 & I4 & I5 & I6 & I7).
   open_state s. destruct (N.eqb_spec rv 0) as [->|Hrv]; cbn [negb] in H.
@@ -410,7 +411,7 @@ Proof.
 Qed.
 
 Lemma law_PSendDone s p rv s' outs :
-  PInv s -> op_ok s (PSendDone p rv) -> pair_step k fx s (PSendDone p rv) = (s', outs) -> StepLaw s (PSendDone p rv) s' outs.
+  PInv s -> op_ok s (PSendDone p rv) -> pair_step k fx fr s (PSendDone p rv) = (s', outs) -> StepLaw s (PSendDone p rv) s' outs.
 Proof.
   intros HI Hok H. cbn [pair_step] in H. pose proof HI as (I1 & I2 & I3 & I4 & I5 & I6 & I7).
   destruct (N.eqb_spec rv 0) as [->|Hrv]; cbn [negb] in H.
@@ -448,7 +449,7 @@ Proof.
 Qed.
 
 Lemma law_PPipeStart s p peer s' outs :
-  PInv s -> op_ok s (PPipeStart p peer) -> pair_step k fx s (PPipeStart p peer) = (s', outs) -> StepLaw s (PPipeStart p peer) s' outs.
+  PInv s -> op_ok s (PPipeStart p peer) -> pair_step k fx fr s (PPipeStart p peer) = (s', outs) -> StepLaw s (PPipeStart p peer) s' outs.
 Proof.
   intros HI Hok H. cbn [pair_step] in H. pose proof HI as (I1 & I2 & I3 & I4 & I5 & I6 & I7).
   destruct (negb (peer =? pair_peer k)%N).
@@ -480,8 +481,49 @@ Proof.
   all: try solve [intros q Hq; apply in_app_or in Hq as [Hq|[E|[]]]; [exfalso; eapply TR; eauto|]; inversion E; reflexivity].
 Qed.
 
+(* ---- set_send_buf_len's admission loop ---- *)
+Lemma admit_spec cap : forall q w,
+  admit_waiters cap w q =
+  (w ++ map snd (firstn (cap - length w) q), skipn (cap - length w) q, map fst (firstn (cap - length w) q)).
+Proof.
+  induction q as [|[a m] r IH]; intros w; cbn [admit_waiters].
+  - rewrite firstn_nil, skipn_nil. cbn. now rewrite app_nil_r.
+  - unfold lmq_full. destruct (Nat.leb_spec cap (length w)).
+    + replace (cap - length w) with 0 by lia. cbn. now rewrite app_nil_r.
+    + rewrite IH. rewrite app_length. cbn [length]. replace (cap - length w) with (S (cap - (length w + 1))) by lia.
+      cbn [firstn skipn map fst snd]. rewrite <- app_assoc. reflexivity.
+Qed.
+Definition completes (l : list aioid) : list pout := map (fun a => Complete a E_OK None) l.
+Lemma txs_completes l : txs (completes l) = [].
+Proof. induction l; cbn; auto. Qed.
+Lemma freed_completes l : freed (completes l) = [].
+Proof. induction l; cbn; auto. Qed.
+Lemma pdelivered_completes l : pdelivered (completes l) = [].
+Proof. induction l; cbn; auto. Qed.
+Lemma pacc_completes aq c op l : pacc aq (PSetOpt c op) (completes l) = flat_map (fun a => lookup_aq a aq) l.
+Proof. induction l as [|a l IH]; cbn [completes map pacc flat_map]; [reflexivity|]. change (E_OK =? 0)%N with true. cbn iota. now rewrite <- IH. Qed.
+Lemma lookup_prefix : forall (q pre : list (aioid * pmsg)) r, NoDup (map fst (pre ++ q)) ->
+  flat_map (fun a => lookup_aq a (pre ++ q)) (map fst (firstn r q)) = map snd (firstn r q).
+Proof.
+  induction q as [|[a m] rest IH]; intros pre r ND; [now rewrite firstn_nil|].
+  destruct r; [reflexivity|]. cbn [firstn map fst snd flat_map].
+  assert (L: lookup_aq a (pre ++ (a, m) :: rest) = [m]).
+  { rewrite map_app in ND. cbn [map fst] in ND. apply NoDup_remove_2 in ND.
+    unfold lookup_aq. rewrite filter_app. cbn [filter fst]. rewrite N.eqb_refl.
+    rewrite !filter_eq_notin; [reflexivity| |]; intros Hin; apply ND; apply in_or_app; auto. }
+  rewrite L. cbn [app]. f_equal.
+  replace (pre ++ (a, m) :: rest) with ((pre ++ [(a, m)]) ++ rest) in * by (now rewrite <- app_assoc).
+  apply IH. exact ND.
+Qed.
+Lemma nodup_skipn_keys r (q : list (aioid * pmsg)) : NoDup (map fst q) -> NoDup (map fst (skipn r q)).
+Proof.
+  intros H. rewrite <- (firstn_skipn r q) in H. rewrite map_app in H.
+  induction (map fst (firstn r q)) as [|x l IH]; cbn in H; [exact H|]. inversion H; subst. auto.
+Qed.
+
+
 Lemma law_PSetOpt s c op s' outs :
-  PInv s -> pair_step k fx s (PSetOpt c op) = (s', outs) -> StepLaw s (PSetOpt c op) s' outs.
+  PInv s -> pair_step k fx fr s (PSetOpt c op) = (s', outs) -> StepLaw s (PSetOpt c op) s' outs.
 Proof.
   intros HI H. cbn [pair_step] in H. pose proof HI as (I1 & I2 & I3 & I4 & I5 & I6 & I7).
   destruct op;
@@ -490,14 +532,33 @@ Proof.
     destruct (PAIR_BUF_MAX <? N.of_nat n)%N eqn:EB.
     { inversion H; subst. apply law_trivial; auto; try reflexivity; try (intros ? ? [E|[]]; inversion E); try (intros ? [E|[]]; inversion E).
       cbn [wloss]. now rewrite EB. }
-    open_state s. rewrite EB. inversion H; subst; clear H; simp_r.
-    rewrite !pacc_app, !pdelivered_app, !txs_app, !freed_app, !pacc_map_Free, !pdelivered_map_Free, !txs_map_Free, !freed_map_Free.
-    cbn [pacc pdelivered txs freed app]. repeat split; auto; leaf.
-    all: try solve [use_I1; now rewrite firstn_nil].
-    all: try solve [rewrite firstn_length; lia].
-    all: try solve [rewrite !app_nil_r; now rewrite firstn_skipn].
-    all: try solve [intros q m Hq; exfalso; revert Hq; rewrite in_app_iff, in_map_iff; intros [(? & E & _)|[E|[]]]; inversion E].
-    all: try solve [intros q Hq; exfalso; revert Hq; rewrite in_app_iff, in_map_iff; intros [(? & E & _)|[E|[]]]; inversion E].
+    open_state s. rewrite EB. destruct fr.
+    + (* since 7c956d7: the blocked senders move into the resized queue *)
+      rewrite admit_spec in H. fold (completes (map fst (firstn (n - length (firstn n wmq)) waq))) in H.
+      set (room := n - length (firstn n wmq)) in *.
+      assert (SK: skipn n wmq = [] \/ room = 0).
+      { destruct (Nat.le_gt_cases (length wmq) n) as [L|L]; [left; now apply skipn_all2|right].
+        unfold room. rewrite firstn_length. lia. }
+      inversion H; subst; clear H; simp_r.
+      rewrite !pacc_app, !pdelivered_app, !txs_app, !freed_app, !pacc_map_Free, !pdelivered_map_Free, !txs_map_Free, !freed_map_Free,
+        pacc_completes, txs_completes, freed_completes, pdelivered_completes.
+      pose proof (lookup_prefix waq [] room I6) as LP. cbn [app] in LP. rewrite LP. clear LP.
+      cbn [pacc pdelivered txs freed app]. repeat split; auto; leaf.
+      all: try solve [use_I1; unfold room; cbn; now rewrite ?firstn_nil, ?skipn_nil].
+      all: try solve [rewrite app_length, map_length, !firstn_length; unfold room; rewrite firstn_length; lia].
+      all: try solve [apply nodup_skipn_keys; auto].
+      all: try solve [rewrite !app_nil_r; destruct SK as [E|E]; rewrite E; [rewrite app_nil_r; rewrite <- (firstn_skipn n wmq) at 1; now rewrite E, app_nil_r
+                                                                           |cbn [firstn map]; rewrite !app_nil_r; now rewrite firstn_skipn]].
+      all: try solve [intros q m Hq; exfalso; revert Hq; rewrite !in_app_iff, in_map_iff; unfold completes; rewrite in_map_iff; intros [(? & E & _)|[(? & E & _)|[E|[]]]]; inversion E].
+      all: try solve [intros q Hq; exfalso; revert Hq; rewrite !in_app_iff, in_map_iff; unfold completes; rewrite in_map_iff; intros [(? & E & _)|[(? & E & _)|[E|[]]]]; inversion E].
+    + inversion H; subst; clear H; simp_r. cbn [map app].
+      rewrite !pacc_app, !pdelivered_app, !txs_app, !freed_app, !pacc_map_Free, !pdelivered_map_Free, !txs_map_Free, !freed_map_Free.
+      cbn [pacc pdelivered txs freed app]. repeat split; auto; leaf.
+      all: try solve [use_I1; now rewrite firstn_nil].
+      all: try solve [rewrite firstn_length; lia].
+      all: try solve [rewrite !app_nil_r; now rewrite firstn_skipn].
+      all: try solve [intros q m Hq; exfalso; revert Hq; rewrite in_app_iff, in_map_iff; intros [(? & E & _)|[E|[]]]; inversion E].
+      all: try solve [intros q Hq; exfalso; revert Hq; rewrite in_app_iff, in_map_iff; intros [(? & E & _)|[E|[]]]; inversion E].
   - (* receive buffer *)
     destruct (PAIR_BUF_MAX <? N.of_nat n)%N eqn:EB.
     { inversion H; subst. apply law_trivial; auto; try reflexivity; try (intros ? ? [E|[]]; inversion E); try (intros ? [E|[]]; inversion E).
@@ -521,7 +582,7 @@ Proof.
 Qed.
 
 Theorem pair_step_law s o s' outs :
-  PInv s -> op_ok s o -> pair_step k fx s o = (s', outs) -> StepLaw s o s' outs.
+  PInv s -> op_ok s o -> pair_step k fx fr s o = (s', outs) -> StepLaw s o s' outs.
 Proof.
   intros HI Hok H.
   destruct o as [c a nb m|c a nb|a rv|p peer|p|p rv|p rv m| c op|c|c| |now].
@@ -551,7 +612,7 @@ Ltac bool_crunch :=
          end; cbn in *; try congruence; try reflexivity.
 
 Theorem pair_readable_mirror s o s' outs :
-  PInv s -> op_ok s o -> o <> PSockClose -> RInv s -> pair_step k fx s o = (s', outs) -> RInv s'.
+  PInv s -> op_ok s o -> o <> PSockClose -> RInv s -> pair_step k fx fr s o = (s', outs) -> RInv s'.
 Proof.
   intros HI Hok Hns HR H. pose proof HI as (I1 & I2 & I3 & I4 & I5 & I6 & I7).
   destruct o as [c a nb m|c a nb|a rv|p peer|p|p rv|p rv m| c op|c|c| |now]; cbn [pair_step] in H.
@@ -603,7 +664,8 @@ Proof.
     + assert (RQ: rmq = []) by (apply I3; discriminate). inv H; simp_r. exact HR.
   - (* PSetOpt *)
     open_flags s. destruct op; try (inv H; exact HR).
-    + destruct (PAIR_BUF_MAX <? N.of_nat n)%N; inv H; simp_r; exact HR.
+    + destruct (PAIR_BUF_MAX <? N.of_nat n)%N; [inv H; simp_r; exact HR|].
+      destruct fr; [rewrite admit_spec in H|]; inv H; simp_r; exact HR.
     + destruct (PAIR_BUF_MAX <? N.of_nat n)%N; inv H; simp_r; [exact HR|].
       destruct (firstn n rmq); cbn; auto. destruct rd; auto. rewrite HR. now rewrite orb_true_r.
     + destruct k; [inv H; exact HR|].
@@ -618,7 +680,7 @@ Qed.
    NNG_EAGAIN", except -- in the pinned source (fx = false) -- pipe_stop *)
 Theorem pair_writable_mirror s o s' outs :
   PInv s -> op_ok s o -> o <> PSockClose -> (fx = true \/ forall p, o <> PPipeClose p) ->
-  WInv s -> pair_step k fx s o = (s', outs) -> WInv s'.
+  WInv s -> pair_step k fx fr s o = (s', outs) -> WInv s'.
 Proof.
   intros HI Hok Hns Hfx HW H. pose proof HI as (I1 & I2 & I3 & I4 & I5 & I6 & I7).
   destruct o as [c a nb m|c a nb|a rv|p peer|p|p rv|p rv m| c op|c|c| |now]; cbn [pair_step] in H.
@@ -663,8 +725,10 @@ Proof.
     destruct raq; [destruct (lmq_full rmq rcap); cbn [negb] in H|]; inv H; simp_r; exact HW.
   - (* PSetOpt *)
     open_flags s. destruct op; try (inv H; exact HW).
-    + destruct (PAIR_BUF_MAX <? N.of_nat n)%N; inv H; simp_r; [exact HW|].
-      destruct (lmq_full (firstn n wmq) n); cbn; [|now rewrite orb_true_r]. destruct wr; cbn; auto; try (rewrite HW; reflexivity).
+    + destruct (PAIR_BUF_MAX <? N.of_nat n)%N; [inv H; simp_r; exact HW|].
+      destruct fr; [rewrite admit_spec in H|]; inv H; simp_r;
+        match goal with |- context[lmq_full ?q n] => destruct (lmq_full q n) end; cbn; try (now rewrite orb_true_r);
+        destruct wr; cbn; auto; try (rewrite HW; reflexivity).
     + destruct (PAIR_BUF_MAX <? N.of_nat n)%N; inv H; simp_r; exact HW.
     + destruct k; [inv H; exact HW|].
       destruct ((n <? PAIR_TTL_MIN) || (PAIR_TTL_MAX <? n)); inv H; simp_r; exact HW.
@@ -677,11 +741,11 @@ Qed.
 (* ================= one peer at a time ================= *)
 Theorem pair_second_peer_rejected s q p peer :
   pr_p s = Some q ->
-  pair_step k fx s (PPipeStart p peer) = (s, [Reject (if N.eqb peer (pair_peer k) then E_BUSY else E_PROTO)]).
+  pair_step k fx fr s (PPipeStart p peer) = (s, [Reject (if N.eqb peer (pair_peer k) then E_BUSY else E_PROTO)]).
 Proof. intros HP. cbn [pair_step]. destruct (peer =? pair_peer k)%N; cbn [negb]; [rewrite HP|]; reflexivity. Qed.
 
 Theorem pair_wrong_peer_rejected s p peer :
-  peer <> pair_peer k -> pair_step k fx s (PPipeStart p peer) = (s, [Reject E_PROTO]).
+  peer <> pair_peer k -> pair_step k fx fr s (PPipeStart p peer) = (s, [Reject E_PROTO]).
 Proof. intros Hne. cbn [pair_step]. destruct (N.eqb_spec peer (pair_peer k)); [contradiction|]. reflexivity. Qed.
 
 Lemma sched_no_reject s s' outs : pair_send_sched k s = (s', outs) -> pr_p s' = pr_p s /\ forall rv, ~ In (Reject rv) outs.
@@ -693,9 +757,9 @@ Proof.
 Qed.
 
 Theorem pair_peer_released_then_accepted s q s1 o1 :
-  pr_p s = Some q -> pair_step k fx s (PPipeClose q) = (s1, o1) ->
+  pr_p s = Some q -> pair_step k fx fr s (PPipeClose q) = (s1, o1) ->
   pr_p s1 = None /\
-  forall p s2 o2, pair_step k fx s1 (PPipeStart p (pair_peer k)) = (s2, o2) ->
+  forall p s2 o2, pair_step k fx fr s1 (PPipeStart p (pair_peer k)) = (s2, o2) ->
     pr_p s2 = Some p /\ In (TranRecv p) o2 /\ forall rv, ~ In (Reject rv) o2.
 Proof.
   intros HP H. cbn [pair_step] in H. rewrite HP, N.eqb_refl in H. inversion H; subst; clear H; simp_r.
@@ -708,7 +772,7 @@ Qed.
 
 (* ================= sending: blocks or refuses, never drops ================= *)
 Theorem pair_send_nonblocking s c a m s' outs :
-  pair_step k fx s (PSend c a true m) = (s', outs) ->
+  pair_step k fx fr s (PSend c a true m) = (s', outs) ->
   exists rv rest, outs = Complete a rv None :: rest /\ pr_waq s' = pr_waq s /\ (forall x, ~ In (Free x) outs) /\
     (rv = E_AGAIN <-> (norm_send k m <> None /\ can_send s = false)) /\
     (rv = E_PROTO <-> norm_send k m = None) /\
@@ -729,7 +793,7 @@ Qed.
 
 Theorem pair_send_blocks_not_drops s c a m m' :
   norm_send k m = Some m' -> can_send s = false ->
-  pair_step k fx s (PSend c a false m) =
+  pair_step k fx fr s (PSend c a false m) =
     (mkPair (pr_p s) (pr_ttl s) (pr_wmq s) (pr_wcap s) (pr_waq s ++ [(a, m')]) (pr_rmq s) (pr_rcap s) (pr_raq s)
             (pr_rd s) (pr_wr s) (pr_sending s) (pr_readable s) (pr_writable s), []).
 Proof.
@@ -740,7 +804,7 @@ Qed.
 (* a blocking send that can be taken is taken at once *)
 Theorem pair_send_accepts_when_possible s c a nb m s' outs :
   PInv s -> norm_send k m <> None -> can_send s = true ->
-  pair_step k fx s (PSend c a nb m) = (s', outs) -> exists rest, outs = Complete a E_OK None :: rest /\ pr_waq s' = pr_waq s.
+  pair_step k fx fr s (PSend c a nb m) = (s', outs) -> exists rest, outs = Complete a E_OK None :: rest /\ pr_waq s' = pr_waq s.
 Proof.
   unfold can_send. intros HI EN HC H. cbn [pair_step] in H. destruct (norm_send k m) as [m'|]; [|congruence].
   destruct (pr_wr s) eqn:W.
@@ -750,7 +814,7 @@ Qed.
 
 (* ================= receiving ================= *)
 Theorem pair_recv_nonblocking s c a s' outs :
-  PInv s -> pair_step k fx s (PRecv c a true) = (s', outs) ->
+  PInv s -> pair_step k fx fr s (PRecv c a true) = (s', outs) ->
   exists rv mo rest, outs = Complete a rv mo :: rest /\ pr_raq s' = pr_raq s /\ (forall x, ~ In (Free x) outs) /\
     (rv = E_AGAIN <-> can_recv s = false) /\
     (rv = E_AGAIN -> s' = s /\ mo = None /\ rest = []) /\
@@ -770,7 +834,7 @@ Qed.
 
 Theorem pair_recv_blocks s c a :
   can_recv s = false ->
-  pair_step k fx s (PRecv c a false) =
+  pair_step k fx fr s (PRecv c a false) =
     (mkPair (pr_p s) (pr_ttl s) (pr_wmq s) (pr_wcap s) (pr_waq s) [] (pr_rcap s) (pr_raq s ++ [a])
             None (pr_wr s) (pr_sending s) (pr_readable s) (pr_writable s), []).
 Proof.
@@ -782,13 +846,13 @@ Definition ptrace := list (pop * pair * list pout).
 Fixpoint pair_run (s : pair) (ops : list pop) : pair * ptrace :=
   match ops with
   | [] => (s, [])
-  | o :: r => let (s1, outs) := pair_step k fx s o in
+  | o :: r => let (s1, outs) := pair_step k fx fr s o in
               let (s2, tr) := pair_run s1 r in (s2, (o, s, outs) :: tr)
   end.
 Fixpoint ops_ok (s : pair) (ops : list pop) : Prop :=
   match ops with
   | [] => True
-  | o :: r => op_ok s o /\ ops_ok (fst (pair_step k fx s o)) r
+  | o :: r => op_ok s o /\ ops_ok (fst (pair_step k fx fr s o)) r
   end.
 Fixpoint tr_acc (tr : ptrace) : list pmsg := match tr with [] => [] | (o, s, outs) :: r => paccepted s o outs ++ tr_acc r end.
 Fixpoint tr_tx (tr : ptrace) : list pmsg := match tr with [] => [] | (o, s, outs) :: r => txs outs ++ tr_tx r end.
@@ -818,7 +882,7 @@ Proof.
   induction ops as [|o r IH]; intros s HI Hok; cbn [pair_run].
   - cbn [tr_tx tr_acc tr_wloss tr_arr tr_dlv tr_rloss app]. rewrite !app_nil_r.
     split; [exact HI|]. repeat split; auto; try apply sublist_refl.
-  - cbn [ops_ok] in Hok. destruct Hok as [Ho Hr]. destruct (pair_step k fx s o) as [s1 outs] eqn:S. cbn [fst] in Hr.
+  - cbn [ops_ok] in Hok. destruct Hok as [Ho Hr]. destruct (pair_step k fx fr s o) as [s1 outs] eqn:S. cbn [fst] in Hr.
     destruct (pair_step_law _ _ _ _ HI Ho S) as (HI1 & C1 & C2 & C3 & C3s & C3l & C4 & _).
     specialize (IH s1 HI1 Hr). destruct (pair_run s1 r) as [s2 tr]. destruct IH as (A & O1 & O2 & O3 & N1 & N2 & N3).
     cbn [tr_tx tr_acc tr_wloss tr_arr tr_dlv tr_rloss].
@@ -843,7 +907,7 @@ Theorem pair_run_mirror ops : forall s, PInv s -> ops_ok s ops -> ~ In PSockClos
 Proof.
   induction ops as [|o r IH]; intros s HI Hok Hnc HR Hfx HW; cbn [pair_run].
   - cbn. auto.
-  - cbn [ops_ok] in Hok. destruct Hok as [Ho Hr]. destruct (pair_step k fx s o) as [s1 outs] eqn:S. cbn [fst] in Hr.
+  - cbn [ops_ok] in Hok. destruct Hok as [Ho Hr]. destruct (pair_step k fx fr s o) as [s1 outs] eqn:S. cbn [fst] in Hr.
     destruct (pair_step_law _ _ _ _ HI Ho S) as (HI1 & _).
     assert (Hno: o <> PSockClose) by (intros ->; apply Hnc; now left).
     pose proof (pair_readable_mirror _ _ _ _ HI Ho Hno HR S) as HR1.
@@ -856,17 +920,186 @@ Proof.
     destruct (pair_run s1 r) as [s2 tr]. cbn [fst] in *. destruct IH as [A B]. split; [exact A|]. intros _. apply B. exact Hfxr.
 Qed.
 
+(* ================= submission order (with the set_send_buf_len repair, fr = true) ================= *)
+(* submitted and not yet handed to the transport, oldest first: the buffer, then the blocked senders *)
+Definition pend (s : pair) : list pmsg := pr_wmq s ++ map snd (pr_waq s).
+(* the message a PSend submits -- unless the call is refused on the spot (NNG_EPROTO, or
+   NNG_EAGAIN for a non-blocking send that cannot be taken) *)
+Definition submitted (s : pair) (o : pop) : list pmsg :=
+  match o with
+  | PSend _ _ nb m => match norm_send k m with None => [] | Some m' => if nb && negb (can_send s) then [] else [m'] end
+  | _ => []
+  end.
+(* submitted messages that leave without being transmitted: buffer shrink, a cancelled blocked send, socket close *)
+Definition sub_loss (s : pair) (o : pop) : list pmsg :=
+  match o with
+  | PSetOpt _ (OSendBuf n) => if (PAIR_BUF_MAX <? N.of_nat n)%N then [] else skipn n (pr_wmq s)
+  | PCancel a _ => lookup_aq a (pr_waq s)
+  | PSockClose => pend s
+  | _ => []
+  end.
+(* a blocked sender => the send buffer is full *)
+Definition QInv (s : pair) : Prop := pr_waq s <> [] -> lmq_full (pr_wmq s) (pr_wcap s) = true.
+
+Definition SubLaw (s : pair) (o : pop) (s' : pair) (outs : list pout) : Prop :=
+  QInv s' /\
+  (sub_loss s o = [] -> map (wire_form k) (pend s ++ submitted s o) = txs outs ++ map (wire_form k) (pend s')) /\
+  sublist (txs outs ++ map (wire_form k) (pend s')) (map (wire_form k) (pend s ++ submitted s o)) /\
+  (forall x, cnt x (map (wire_form k) (pend s ++ submitted s o)) = cnt x (txs outs ++ map (wire_form k) (pend s' ++ sub_loss s o))).
+
+Lemma sublist_map {A B} (f : A -> B) a b : sublist a b -> sublist (map f a) (map f b).
+Proof. induction 1; cbn; [apply sl_nil|apply sl_skip; auto|apply sl_keep; auto]. Qed.
+Lemma sublist_filter {A} (f : A -> bool) l : sublist (filter f l) l.
+Proof. induction l; cbn; [apply sl_nil|]. destruct (f a); [apply sl_keep|apply sl_skip]; auto. Qed.
+
+Lemma cnt_partition_wire x (a : aioid) (l : list (aioid * pmsg)) :
+  cnt x (map (wire_form k) (map snd l)) =
+  cnt x (map (wire_form k) (map snd (filter (fun y => N.eqb (fst y) a) l))) +
+  cnt x (map (wire_form k) (map snd (filter (fun y => negb (N.eqb (fst y) a)) l))).
+Proof.
+  induction l as [|[a0 v] l IH]; cbn [filter map fst snd]; [reflexivity|].
+  destruct (N.eqb a0 a); cbn [negb map snd]; rewrite ?cnt_cons, IH; lia.
+Qed.
+
+Lemma sub_exact s o s' outs :
+  QInv s' -> sub_loss s o = [] ->
+  map (wire_form k) (pend s ++ submitted s o) = txs outs ++ map (wire_form k) (pend s') -> SubLaw s o s' outs.
+Proof.
+  intros Q L E. unfold SubLaw. rewrite L, E, app_nil_r. repeat split; auto. apply sublist_refl.
+Qed.
+Lemma sub_same s o s' outs :
+  QInv s -> pr_wmq s' = pr_wmq s -> pr_waq s' = pr_waq s -> pr_wcap s' = pr_wcap s ->
+  txs outs = [] -> submitted s o = [] -> sub_loss s o = [] -> SubLaw s o s' outs.
+Proof.
+  intros Q A B C T S L. apply sub_exact; auto.
+  - unfold QInv in *. now rewrite A, B, C.
+  - unfold pend. now rewrite S, T, A, B, app_nil_r.
+Qed.
+
+Lemma sched_pend s p s' outs :
+  pr_p s = Some p -> QInv s -> length (pr_wmq s) <= pr_wcap s -> pair_send_sched k s = (s', outs) ->
+  map (wire_form k) (pend s) = txs outs ++ map (wire_form k) (pend s') /\ QInv s'.
+Proof.
+  intros Hp Q Hlen H. unfold pair_send_sched in H. rewrite Hp in H. unfold pend, QInv in *.
+  destruct s as [p0 ttl wmq wcap waq rmq rcap raq rd wr sn rdb wrb]. simp_r.
+  destruct wmq as [|m rest]; destruct waq as [|[a m2] aqr]; cbn [length] in *.
+  - inversion H; subst; simp_r. split; [reflexivity|congruence].
+  - inversion H; subst; simp_r. cbn [map snd txs app]. split; [reflexivity|]. intros _. apply Q. discriminate.
+  - inversion H; subst; simp_r. cbn [map snd txs app]. split; [reflexivity|congruence].
+  - rewrite lmq_put_ok in H by lia. inversion H; subst; simp_r. cbn [map snd txs app]. split.
+    + rewrite <- app_assoc. reflexivity.
+    + intros _. specialize (Q ltac:(discriminate)). unfold lmq_full in *. rewrite app_length. cbn [length] in *.
+      apply Nat.leb_le in Q. apply Nat.leb_le. lia.
+Qed.
+
+Theorem pair_submission_step s o s' outs :
+  fr = true -> PInv s -> QInv s -> op_ok s o -> pair_step k fx fr s o = (s', outs) -> SubLaw s o s' outs.
+Proof.
+  intros Hfr HI Q Hok H. subst fr. pose proof HI as (I1 & I2 & I3 & I4 & I5 & I6 & I7).
+  destruct o as [c a nb m|c a nb|a rv|p peer|p|p rv|p rv m| c op|c|c| |now]; cbn [pair_step] in H.
+  - (* PSend *)
+    destruct (norm_send k m) as [m'|] eqn:EN.
+    2:{ inversion H; subst. apply sub_same; auto. cbn [submitted]. now rewrite EN. }
+    destruct s as [p0 ttl wmq wcap waq rmq rcap raq rd wr sn rdb wrb]. pose proof Q as Q0. unfold QInv, PInv in Q, I1. simp_r.
+    destruct wr.
+    + destruct (I1 eq_refl) as (A & B & C). subst wmq waq. destruct p0 as [p|]; [|contradiction].
+      inversion H; subst; clear H. apply sub_exact; cbn [submitted]; unfold QInv, pend, can_send; simp_r; rewrite ?EN; auto.
+      rewrite andb_false_r. reflexivity.
+    + destruct (lmq_full wmq wcap) eqn:F; cbn [negb] in H.
+      * destruct nb; inversion H; subst; clear H.
+        -- apply sub_same; auto. cbn [submitted]. unfold can_send. simp_r. now rewrite EN, F.
+        -- apply sub_exact; cbn [submitted]; unfold QInv, pend, can_send; simp_r; rewrite ?EN; auto.
+           cbn [andb]. rewrite map_app, <- app_assoc. reflexivity.
+      * assert (WQ: waq = []) by (destruct waq; auto; exfalso; specialize (Q ltac:(discriminate)); congruence). subst waq.
+        inversion H; subst; clear H. apply sub_exact; cbn [submitted]; unfold QInv, pend, can_send; simp_r; rewrite ?EN, ?F; auto.
+        rewrite andb_false_r. cbn [map app]. now rewrite !app_nil_r.
+  - (* PRecv *)
+    destruct s as [p0 ttl wmq wcap waq rmq rcap raq rd wr sn rdb wrb]. simp_r.
+    destruct rmq as [|m rest]; [destruct rd; [|destruct nb]|destruct rd]; inversion H; subst; clear H; apply sub_same; auto;
+      cbn [txs]; try reflexivity; destruct p0; reflexivity.
+  - (* PCancel *)
+    destruct s as [p0 ttl wmq wcap waq rmq rcap raq rd wr sn rdb wrb]. pose proof Q as Q0. unfold QInv in Q. simp_r.
+    destruct (has_aio a waq) eqn:EA; [|destruct (has_id a raq)]; inversion H; subst; clear H.
+    + unfold SubLaw, QInv, pend, sub_loss, submitted, lookup_aq, remove_aio. simp_r. cbn [txs app]. rewrite !app_nil_r.
+      split; [|split; [|split]].
+      * intros Hne. apply Q. intros E. subst. apply Hne. reflexivity.
+      * intros E. f_equal. f_equal.
+        assert (X: forall l : list (aioid * pmsg), map snd (filter (fun x => (fst x =? a)%N) l) = [] ->
+                     map snd (filter (fun x => negb (fst x =? a)%N) l) = map snd l).
+        { induction l as [|[a0 v] l IHl]; cbn; [reflexivity|]. destruct (a0 =? a)%N; cbn; [discriminate|]. intros E0. now rewrite IHl. }
+        apply X. exact E.
+      * apply sublist_map. apply sublist_app; [apply sublist_refl|]. apply sublist_map. apply sublist_filter.
+      * intros x. pose proof (cnt_partition_wire x a waq) as P. rewrite !map_app, !cnt_app. lia.
+    + apply sub_same; auto. cbn [sub_loss]. simp_r. unfold lookup_aq. clear - EA. unfold has_aio in EA.
+      induction waq as [|[a0 v] l IHl]; cbn in *; [reflexivity|]. apply orb_false_iff in EA as [E1 E2]. rewrite E1. auto.
+    + apply sub_same; auto. cbn [sub_loss]. simp_r. unfold lookup_aq. clear - EA. unfold has_aio in EA.
+      induction waq as [|[a0 v] l IHl]; cbn in *; [reflexivity|]. apply orb_false_iff in EA as [E1 E2]. rewrite E1. auto.
+  - (* PPipeStart *)
+    destruct (negb (peer =? pair_peer k)%N); [inversion H; subst; apply sub_same; auto|].
+    destruct (pr_p s) eqn:EP; [inversion H; subst; apply sub_same; auto|].
+    set (s1 := mkPair (Some p) (pr_ttl s) (pr_wmq s) (pr_wcap s) (pr_waq s) (pr_rmq s) (pr_rcap s) (pr_raq s) None (pr_wr s)
+                      (pr_sending s) (pr_readable s) (pr_writable s)) in *.
+    destruct (pair_send_sched k s1) as [s2 o2] eqn:SS. inversion H; subst; clear H.
+    destruct (sched_pend s1 p s' o2 eq_refl Q I4 SS) as [E Q'].
+    apply sub_exact; auto. cbn [submitted]. rewrite app_nil_r, txs_app. cbn [txs]. rewrite app_nil_r. exact E.
+  - (* PPipeClose *)
+    destruct s as [p0 ttl wmq wcap waq rmq rcap raq rd wr sn rdb wrb]. simp_r.
+    destruct p0 as [q|]; [destruct (q =? p)%N|]; inversion H; subst; clear H; apply sub_same; auto. destruct rd; reflexivity.
+  - (* PSendDone *)
+    destruct (N.eqb_spec rv 0) as [->|Hrv]; cbn [negb] in H.
+    + destruct Hok as [Hin HP]. specialize (HP eq_refl).
+      set (s0 := mkPair (pr_p s) (pr_ttl s) (pr_wmq s) (pr_wcap s) (pr_waq s) (pr_rmq s) (pr_rcap s) (pr_raq s) (pr_rd s) (pr_wr s)
+                        (set_snd (pr_sending s) p None) (pr_readable s) (pr_writable s)) in *.
+      destruct (sched_pend s0 p s' outs HP Q I4 H) as [E Q'].
+      apply sub_exact; auto. cbn [submitted]. rewrite app_nil_r. exact E.
+    + inversion H; subst; clear H. apply sub_same; auto. rewrite txs_app, txs_map_Free. reflexivity.
+  - (* PRecvDone *)
+    destruct s as [p0 ttl wmq wcap waq rmq rcap raq rd wr sn rdb wrb]. simp_r.
+    destruct (negb (rv =? 0)%N); [inversion H; subst; apply sub_same; auto|].
+    destruct (rx_decode k ttl m); try (inversion H; subst; apply sub_same; auto; fail).
+    destruct raq; [destruct (lmq_full rmq rcap); cbn [negb] in H|]; inversion H; subst; apply sub_same; auto.
+  - (* PSetOpt *)
+    destruct op; try (inversion H; subst; apply sub_same; auto; fail).
+    + destruct (PAIR_BUF_MAX <? N.of_nat n)%N eqn:EB.
+      { inversion H; subst. apply sub_same; auto. cbn [sub_loss]. now rewrite EB. }
+      destruct s as [p0 ttl wmq wcap waq rmq rcap raq rd wr sn rdb wrb]. simp_r.
+      rewrite admit_spec in H. set (room := n - length (firstn n wmq)) in *.
+      inversion H; subst; clear H.
+      unfold SubLaw, QInv, pend, sub_loss, submitted. simp_r. rewrite EB.
+      rewrite !txs_app, txs_map_Free. fold (completes (map fst (firstn room waq))). rewrite txs_completes. cbn [txs app]. rewrite !app_nil_r.
+      assert (RW: map snd (firstn room waq) ++ map snd (skipn room waq) = map snd waq) by (rewrite <- map_app; now rewrite firstn_skipn).
+      split; [|split; [|split]].
+      * intros Hne. unfold lmq_full. apply Nat.leb_le. rewrite app_length, map_length, firstn_length.
+        assert (room < length waq).
+        { destruct (Nat.lt_ge_cases room (length waq)); auto. exfalso. apply Hne. now apply skipn_all2. }
+        unfold room. rewrite firstn_length. lia.
+      * intros E. rewrite <- app_assoc, RW. rewrite <- (firstn_skipn n wmq) at 1. now rewrite E, app_nil_r.
+      * rewrite <- app_assoc, RW. apply sublist_map. apply sublist_app; [apply sublist_firstn|apply sublist_refl].
+      * intros x. rewrite <- (firstn_skipn n wmq) at 1. rewrite <- RW. rewrite !map_app, !cnt_app. lia.
+    + destruct (PAIR_BUF_MAX <? N.of_nat n)%N; inversion H; subst; apply sub_same; auto.
+      rewrite txs_app, txs_map_Free. reflexivity.
+    + destruct k; [inversion H; subst; apply sub_same; auto|].
+      destruct ((n <? PAIR_TTL_MIN) || (PAIR_TTL_MAX <? n)); inversion H; subst; apply sub_same; auto.
+  - inversion H; subst; apply sub_same; auto.
+  - inversion H; subst; apply sub_same; auto.
+  - (* PSockClose *)
+    inversion H; subst; clear H. unfold SubLaw, QInv, pend, sub_loss, submitted. simp_r.
+    rewrite !txs_app, !txs_fail, !txs_map_Free. cbn [app map]. rewrite !app_nil_r.
+    split; [congruence|]. split; [intros E; now rewrite E|]. split; [apply sublist_nil_l|]. intros x. reflexivity.
+  - inversion H; subst; apply sub_same; auto.
+Qed.
+
 End Pair.
 
 (* ================= PAIRv1: the hop-count rules ================= *)
 (* a wire message of at least four bytes from the peer; v = its first 32-bit word, ANY value *)
-Theorem pair1_hop_rules_law raw fx s p hdr b0 b1 b2 b3 rest :
+Theorem pair1_hop_rules_law raw fx fr s p hdr b0 b1 b2 b3 rest :
   let m := mkPmsg hdr (b0 :: b1 :: b2 :: b3 :: rest) in
   let v := word32 b0 b1 b2 b3 in
   (* more than 0xff: malformed -- freed, sender disconnected, nothing else changes *)
-  ((255 < v)%N -> pair_step (K1 raw) fx s (PRecvDone p 0 m) = (s, [Free m; ClosePipe p])) /\
+  ((255 < v)%N -> pair_step (K1 raw) fx fr s (PRecvDone p 0 m) = (s, [Free m; ClosePipe p])) /\
   (* a valid count above the limit: freed, the receive re-armed, the connection kept *)
-  ((v <= 255)%N -> (N.of_nat (pr_ttl s) < v)%N -> pair_step (K1 raw) fx s (PRecvDone p 0 m) = (s, [Free m; TranRecv p])) /\
+  ((v <= 255)%N -> (N.of_nat (pr_ttl s) < v)%N -> pair_step (K1 raw) fx fr s (PRecvDone p 0 m) = (s, [Free m; TranRecv p])) /\
   (* otherwise: admitted, with the hop count as header and the four bytes trimmed *)
   ((v <= 255)%N -> (v <= N.of_nat (pr_ttl s))%N ->
      rx_decode (K1 raw) (pr_ttl s) m = RxOk (mkPmsg (hdr ++ [0; 0; 0; v]%N) rest) /\
@@ -887,8 +1120,8 @@ Proof.
 Qed.
 
 (* shorter than four bytes: malformed as well *)
-Theorem pair1_short_message_law raw fx s p m :
-  length (pm_body m) < 4 -> pair_step (K1 raw) fx s (PRecvDone p 0 m) = (s, [Free m; ClosePipe p]).
+Theorem pair1_short_message_law raw fx fr s p m :
+  length (pm_body m) < 4 -> pair_step (K1 raw) fx fr s (PRecvDone p 0 m) = (s, [Free m; ClosePipe p]).
 Proof.
   intros H. cbn [pair_step N.eqb negb rx_decode]. destruct m as [h b]. cbn [pm_body] in *.
   destruct b as [|b0 [|b1 [|b2 [|b3 r]]]]; cbn in H; try lia; reflexivity.
@@ -917,7 +1150,7 @@ Proof. reflexivity. Qed.
 Theorem pair1_raw_send_header m :
   (forall m', norm_send (K1 true) m = Some m' -> m' = m /\ exists b0 b1 b2 b3, pm_hdr m = [b0; b1; b2; b3] /\ (word32 b0 b1 b2 b3 < 255)%N) /\
   (forall b0 b1 b2 b3, pm_hdr m = [b0; b1; b2; b3] -> (word32 b0 b1 b2 b3 < 255)%N -> norm_send (K1 true) m = Some m) /\
-  (forall fx s c a nb, norm_send (K1 true) m = None -> pair_step (K1 true) fx s (PSend c a nb m) = (s, [Complete a E_PROTO None])).
+  (forall fx fr s c a nb, norm_send (K1 true) m = None -> pair_step (K1 true) fx fr s (PSend c a nb m) = (s, [Complete a E_PROTO None])).
 Proof.
   repeat split.
   - unfold norm_send in H. destruct (pm_hdr m) as [|b0 [|b1 [|b2 [|b3 [|x r]]]]]; cbn [get32] in H; try discriminate.
@@ -925,7 +1158,7 @@ Proof.
   - unfold norm_send in H. destruct (pm_hdr m) as [|b0 [|b1 [|b2 [|b3 [|x r]]]]]; cbn [get32] in H; try discriminate.
     destruct (N.leb_spec 255 (word32 b0 b1 b2 b3)); [discriminate|]. exists b0, b1, b2, b3. split; [reflexivity|lia].
   - intros b0 b1 b2 b3 E Hlt. unfold norm_send. rewrite E. cbn [get32]. destruct (N.leb_spec 255 (word32 b0 b1 b2 b3)); [lia|reflexivity].
-  - intros fx s c a nb E. cbn [pair_step]. now rewrite E.
+  - intros fx fr s c a nb E. cbn [pair_step]. now rewrite E.
 Qed.
 
 (* every header the model puts on the wire for PAIRv1 is four bytes: the NNI_ASSERT of pipe_send holds *)
@@ -941,17 +1174,17 @@ Qed.
    send succeeds *)
 Definition poll_w_witness (k : pkind) : list pop :=
   [PSetOpt None (OSendBuf 2); PPipeStart 1%N (pair_peer k); PPipeClose 1%N].
-Theorem pair_poll_w_mirror_refuted_pinned k :
-  let s := fst (pair_run k false pair_init (poll_w_witness k)) in
-  ops_ok k false pair_init (poll_w_witness k) /\
+Theorem pair_poll_w_mirror_refuted_pinned k fr :
+  let s := fst (pair_run k false fr pair_init (poll_w_witness k)) in
+  ops_ok k false fr pair_init (poll_w_witness k) /\
   pr_writable s = false /\ can_send s = true /\
-  exists s' rest, pair_step k false s (PSend None 7%N true (mkPmsg [0; 0; 0; 0]%N [1%N])) = (s', Complete 7%N E_OK None :: rest).
+  exists s' rest, pair_step k false fr s (PSend None 7%N true (mkPmsg [0; 0; 0; 0]%N [1%N])) = (s', Complete 7%N E_OK None :: rest).
 Proof.
-  destruct k as [|[]]; vm_compute; (split; [tauto|]); (split; [reflexivity|]); (split; [reflexivity|]); eexists _, _; reflexivity.
+  destruct fr; destruct k as [|[]]; vm_compute; (split; [tauto|]); (split; [reflexivity|]); (split; [reflexivity|]); eexists _, _; reflexivity.
 Qed.
-Theorem pair_poll_w_mirror_repaired_on_witness k :
-  let s := fst (pair_run k true pair_init (poll_w_witness k)) in pr_writable s = can_send s.
-Proof. destruct k as [|[]]; vm_compute; reflexivity. Qed.
+Theorem pair_poll_w_mirror_repaired_on_witness k fr :
+  let s := fst (pair_run k true fr pair_init (poll_w_witness k)) in pr_writable s = can_send s.
+Proof. destruct fr; destruct k as [|[]]; vm_compute; reflexivity. Qed.
 
 (* why op_ok demands that a successful send completion belongs to the attached pipe:
    pipe_send_cb calls send_sched(s) for whatever pipe is attached NOW.  If the callback of a
@@ -965,9 +1198,9 @@ Definition stale_witness : list pop :=
    PPipeClose 1%N;                             (* pipe 1 is reaped; its successful completion is still queued *)
    PPipeStart 2%N PROTO_PAIR0;                 (* message 2 goes to pipe 2 *)
    PSendDone 1%N 0%N].                         (* the stale callback: message 3 replaces message 2 on pipe 2 *)
-Theorem pair_stale_send_completion_refuted fx :
-  let (s, tr) := pair_run K0 fx pair_init stale_witness in
+Theorem pair_stale_send_completion_refuted fx fr :
+  let (s, tr) := pair_run K0 fx fr pair_init stale_witness in
   tr_acc K0 tr = [mkPmsg [] [1%N]; mkPmsg [] [2%N]; mkPmsg [] [3%N]] /\
   tr_tx tr = [mkPmsg [] [1%N]; mkPmsg [] [2%N]; mkPmsg [] [3%N]] /\
   pr_p s = Some 2%N /\ sendingl s = [mkPmsg [] [3%N]] /\ tr_wloss tr = [].
-Proof. destruct fx; vm_compute; repeat split; reflexivity. Qed.
+Proof. destruct fx; destruct fr; vm_compute; repeat split; reflexivity. Qed.
